@@ -62,6 +62,12 @@ func init() {
 		}
 		// a union of caveat readers must hand the policy what the first accepting member read, whatever it read before
 		emit("reqcraft", []string{"or", "-", "-"}, "crafted/or", true)
+		genRdTree(cfg, emit, 150, 3000)
+		// an attestation whose caveats carry a field the attestation schema does not know: not a session
+		if err := worldGen("C02", 60, 1200, genOpts{minDepth: 1, maxDepth: 3, sessions: true, sessionPct: 100, attVariant: 6,
+			kinds: []string{"none", "none", "permute"}})(cfg, emit); err != nil {
+			return err
+		}
 		return c02att(cfg, emit)
 	}
 	// C04: a non-key issuer somewhere in the chain, every attestation variant, key resolver variants
@@ -143,6 +149,7 @@ func init() {
 		genDidRead(cfg, emit)
 		emit("reqcraft", []string{"or", "-", "-"}, "crafted/or", true)
 		genConv(emit)
+		genRdTree(cfg, emit, 150, 3000)
 		// and the search as a server runs it (chains of several embedded delegations)
 		ns := 200
 		if cfg.Thorough() {
